@@ -56,7 +56,7 @@ fn has_marked_member(marks: &[TPath], obj: &TPath) -> bool {
 }
 
 pub const DEFECTS: &[&str] = &[
-    "not_array", "arity0", "arity1", "arity4", "member_in_placeholder", "element_in_sd", "name_not_string",
+    "not_array", "arity0", "arity1", "arity4", "arity258", "arity259", "arity514", "arity515", "arity65539", "member_in_placeholder", "element_in_sd", "name_not_string",
     "name_sd", "name_dots", "collision", "dup_same_sd", "dup_two_sd", "dup_two_placeholders", "dup_sd_and_placeholder",
     "dup_unpresented", "sd_string", "sd_object", "sd_number", "placeholder_extra", "alg_unknown", "alg_case",
     "alg_not_string",
@@ -115,11 +115,20 @@ pub fn generate(thorough: bool, seed: u64, em: &mut Emitter) {
                 }
             }
             "element_in_sd" | "name_not_string" | "name_sd" | "name_dots" | "collision" | "dup_same_sd" | "dup_two_sd"
-            | "dup_sd_and_placeholder" | "dup_unpresented" => {
+            | "dup_sd_and_placeholder" | "dup_unpresented" | "arity258" | "arity259" | "arity514" | "arity515" | "arity65539" => {
                 let o = r.pick(&objs).clone();
                 let existing: Vec<String> = get_mut(&mut bad, &o).as_object().unwrap().keys().cloned().collect();
                 let d = match defect {
                     "element_in_sd" => disc(json!([salt, 1])),
+                    // referenced from a digest list like a member disclosure, but with a number of elements that is 2 or 3 only modulo 256 / 65536
+                    "arity258" | "arity259" | "arity514" | "arity515" | "arity65539" => {
+                        let n: usize = defect[5..].parse().unwrap();
+                        let mut a = vec![json!(salt), json!("fresh_name")];
+                        while a.len() < n {
+                            a.push(json!(0));
+                        }
+                        disc(Value::Array(a))
+                    }
                     "name_not_string" => disc(json!([salt, r.pick(&[json!(5), json!(null), json!(["k"]), json!({"k": 1}), json!(true)]), 1])),
                     "name_sd" => disc(json!([salt, "_sd", ["x"]])),
                     "name_dots" => disc(json!([salt, "...", "x"])),
